@@ -234,80 +234,76 @@ class ScnLog:
 
 
 def parse_log(path):
-    """Generator of ScnLog."""
-    with open(path, "rb") as f:
-        data = f.read()
-    pos = 0
-    n = len(data)
+    """Generator of ScnLog; streams the file (a thorough-tier shard log can be gigabytes)."""
     cur = None
     inp = None
-    while pos < n:
-        nl = data.find(b"\n", pos)
-        if nl < 0:
-            nl = n
-        line = data[pos:nl]
-        pos = nl + 1
-        if not line:
-            continue
-        c = line[0:1]
-        try:
-            if c == b"T":
-                p = line.split(b" ")
-                ev = ("T", int(p[1]), int(p[2]), bytes.fromhex(p[3].decode()) if len(p) > 3 and p[3] else None)
-                (inp.ev if inp else cur.pre).append(ev)
-            elif c == b"I":
-                p = line.split(b" ")
-                inp = Inp(int(p[1]), p[2].decode(), int(p[3]))
-                cur.inputs.append(inp)
-            elif c == b"O":
-                p = line.split(b" ")
-                if inp:
-                    inp.out = tuple(int(x) for x in p[1:6])
-            elif c == b"Z":
-                (inp.ev if inp else cur.pre).append(("Z", int(line[2:])))
-            elif c == b"L":
-                t = tuple(int(x) for x in line.split(b" ")[1:5])
-                if inp and inp.out is not None and inp.led is None:
-                    inp.led = t
-                else:
-                    cur.ledgers.append((len(cur.inputs), t))
-            elif c == b"R":
-                (inp.ev if inp else cur.pre).append(("R", int(line[2:])))
-            elif c == b"A":
-                p = line.decode().split(" ")
-                (inp.ev if inp else cur.pre).append(("A", p[1], p[2:]))
-            elif c == b"H":
-                p = line.split(b" ")
-                (inp.ev if inp else cur.pre).append(("H",) + tuple(int(x) for x in p[1:6]))
-            elif c == b"t":
-                p = line.split(b" ")
-                (inp.ev if inp else cur.pre).append(("t", int(p[1]), int(p[2])))
-            elif c == b"m":
-                (inp.ev if inp else cur.pre).append(("m", int(line[2:])))
-            elif c == b"d":
-                p = line.split(b" ")
-                (inp.ev if inp else cur.pre).append(("d", int(p[1]), int(p[2]), bytes.fromhex(p[3].decode())))
-            elif c == b"K":
-                cur.marks.append((len(cur.inputs), line[2:].decode()))
-                inp = None
-            elif c == b"S":
-                cur = ScnLog(line[2:].decode())
-                inp = None
-            elif c == b"E":
-                ln = int(line[2:])
-                cur.stderr += data[pos:pos + ln].decode("utf-8", "replace")
-                pos += ln + 1
-            elif c == b"X":
-                p = line.decode().split(" ")
-                cur.status, cur.code, cur.cpu_ms = p[2], int(p[3]), int(p[4])
-                yield cur
-                cur = None
-                inp = None
-            elif c == b"f":
-                (inp.ev if inp else cur.pre).append(("f?", line[3:].decode()))
-        except (ValueError, IndexError, AttributeError):
-            # a line cut short by a dying child
-            continue
+    with open(path, "rb") as f:
+        while True:
+            line = f.readline()
+            if not line:
+                break
+            line = line.rstrip(b"\n")
+            if not line:
+                continue
+            c = line[0:1]
+            try:
+                if c == b"T":
+                    p = line.split(b" ")
+                    ev = ("T", int(p[1]), int(p[2]), bytes.fromhex(p[3].decode()) if len(p) > 3 and p[3] else None)
+                    (inp.ev if inp else cur.pre).append(ev)
+                elif c == b"I":
+                    p = line.split(b" ")
+                    inp = Inp(int(p[1]), p[2].decode(), int(p[3]))
+                    cur.inputs.append(inp)
+                elif c == b"O":
+                    p = line.split(b" ")
+                    if inp:
+                        inp.out = tuple(int(x) for x in p[1:6])
+                elif c == b"Z":
+                    (inp.ev if inp else cur.pre).append(("Z", int(line[2:])))
+                elif c == b"L":
+                    t = tuple(int(x) for x in line.split(b" ")[1:5])
+                    if inp and inp.out is not None and inp.led is None:
+                        inp.led = t
+                    else:
+                        cur.ledgers.append((len(cur.inputs), t))
+                elif c == b"R":
+                    (inp.ev if inp else cur.pre).append(("R", int(line[2:])))
+                elif c == b"A":
+                    p = line.decode().split(" ")
+                    (inp.ev if inp else cur.pre).append(("A", p[1], p[2:]))
+                elif c == b"H":
+                    p = line.split(b" ")
+                    (inp.ev if inp else cur.pre).append(("H",) + tuple(int(x) for x in p[1:6]))
+                elif c == b"t":
+                    p = line.split(b" ")
+                    (inp.ev if inp else cur.pre).append(("t", int(p[1]), int(p[2])))
+                elif c == b"m":
+                    (inp.ev if inp else cur.pre).append(("m", int(line[2:])))
+                elif c == b"d":
+                    p = line.split(b" ")
+                    (inp.ev if inp else cur.pre).append(("d", int(p[1]), int(p[2]), bytes.fromhex(p[3].decode())))
+                elif c == b"K":
+                    cur.marks.append((len(cur.inputs), line[2:].decode()))
+                    inp = None
+                elif c == b"S":
+                    cur = ScnLog(line[2:].decode())
+                    inp = None
+                elif c == b"E":
+                    ln = int(line[2:])
+                    cur.stderr += f.read(ln).decode("utf-8", "replace")
+                    f.read(1)
+                elif c == b"X":
+                    p = line.decode().split(" ")
+                    cur.status, cur.code, cur.cpu_ms = p[2], int(p[3]), int(p[4])
+                    yield cur
+                    cur = None
+                    inp = None
+                elif c == b"f":
+                    (inp.ev if inp else cur.pre).append(("f?", line[3:].decode()))
+            except (ValueError, IndexError, AttributeError):
+                # a line cut short by a dying child
+                continue
     if cur is not None:
         yield cur
 
